@@ -1,6 +1,6 @@
 (* C03 -- property theorems only. *)
 From Coq Require Import Reals List ZArith String Bool.
-From WNTRV Require Import C01.Model C02.Model C03.Model C03.Proofs Gen.BinUnits.
+From WNTRV Require Import C01.Model C02.Model C03.Model C03.Proofs C03.Instance C07.Model C07.Mono Gen.BinUnits.
 Import ListNotations.
 
 (* Both engines are specified to solve the same system; for fixed statuses, source heads and (pressure-dependent, non-decreasing)
@@ -27,6 +27,26 @@ Proof. exact quad_increasing. Qed.
 Theorem C03_head_pump_increasing : forall A B C a b, (0 < B)%R -> (0 < C)%R -> (0 < a)%R -> (a < b)%R ->
   (B * Rpower a C - A < B * Rpower b C - A)%R.
 Proof. exact head_pump_increasing. Qed.
+(* ... so that, with no abstract hypothesis left: a network of Hazen-Williams pipes (with minor loss), throttle / open valves and head pumps with
+   exponent > 1 has at most one solution -- demand-driven (any non-decreasing demand, constants included) and pressure-driven with the PDD
+   curve of C07 in the Fritsch-Carlson box *)
+Theorem C03_unique_common_feature_set : forall links nodes fixed src dem (kinds : list law_kind),
+  NoDup nodes -> (forall s e, In (s, e) links -> In s nodes /\ In e nodes) ->
+  (forall l, In l kinds -> law_wf l) -> List.length kinds = List.length links ->
+  (forall n a b, (a <= b)%R -> (dem n a <= dem n b)%R) ->
+  let phi_ := fun i q => law (nth i kinds (QuadL 1)) q in
+  forall z z', solves links nodes fixed src dem phi_ (fun _ _ => True) z -> solves links nodes fixed src dem phi_ (fun _ _ => True) z' ->
+  (forall i, (i < List.length links)%nat -> flow z i = flow z' i) /\ (forall n, anchored links nodes fixed n -> head z n = head z' n).
+Proof. exact unique_flows_common. Qed.
+Theorem C03_unique_common_feature_set_pdd : forall links nodes fixed src (kinds : list law_kind) (D elev : nat -> R) pmin pnom pexp,
+  NoDup nodes -> (forall s e, In (s, e) links -> In s nodes /\ In e nodes) ->
+  (forall l, In l kinds -> law_wf l) -> List.length kinds = List.length links ->
+  (forall n, (0 <= D n)%R) -> (0 < pexp)%R -> (2 * delta <= pnom - pmin)%R -> fc_box pmin pnom pexp ->
+  let phi_ := fun i q => law (nth i kinds (QuadL 1)) q in
+  let dem_ := fun n h => (D n * pdd_frac pmin pnom pexp (h - elev n))%R in
+  forall z z', solves links nodes fixed src dem_ phi_ (fun _ _ => True) z -> solves links nodes fixed src dem_ phi_ (fun _ _ => True) z' ->
+  (forall i, (i < List.length links)%nat -> flow z i = flow z' i) /\ (forall n, anchored links nodes fixed n -> head z n = head z' n).
+Proof. exact unique_flows_common_pdd. Qed.
 (* ... except the constant-power pump, whose law has a forward and a reverse branch (refutes uniqueness for such models; the
    reverse branch is what WNTRSimulator sometimes converges to -- recorded finding) *)
 Theorem C03_power_pump_two_branches_refuted : forall P q, (0 < P)%R -> (0 < q)%R ->
@@ -49,6 +69,8 @@ Proof. intros c H. simpl in H. repeat (destruct H as [<-|H]; [vm_compute; reflex
 
 Print Assumptions C03_unique_flows.
 Print Assumptions C03_unique_heads.
+Print Assumptions C03_unique_common_feature_set.
+Print Assumptions C03_unique_common_feature_set_pdd.
 Print Assumptions C03_hw_pipe_increasing.
 Print Assumptions C03_quad_increasing.
 Print Assumptions C03_head_pump_increasing.
